@@ -335,12 +335,23 @@ class X12Reader(X12Base):
         """
         X12Base._parse_segment(self, seg_data)
         seg_id = seg_data.get_seg_id()
-        if seg_id == 'IEA':
+        if seg_id in ('IEA', 'GE', 'SE') and not self.loops:
+            # Trailer with no open envelope
+            err_str = '{} segment found without an open loop'.format(seg_id)
+            if seg_id == 'IEA':
+                self._isa_error('024', err_str)
+            elif seg_id == 'GE':
+                self._gs_error('4', err_str)
+            else:
+                self._st_error('3', err_str)
+        elif seg_id == 'IEA':
             if self.loops[-1][0] != 'ISA':
                 # Unterminated GS loop
                 err_str = 'Unterminated Loop {}'.format(self.loops[-1][0])
                 self._isa_error('024', err_str)
                 del self.loops[-1]
+            if not self.loops:
+                return
             if self.loops[-1][1] != seg_data.get_value('IEA02'):
                 err_str = 'IEA id={} does not match ISA id={}'.format(\
                     seg_data.get_value('IEA02'), self.loops[-1][1])
@@ -355,6 +366,8 @@ class X12Reader(X12Base):
                 err_str = 'Unterminated segment {}'.format(self.loops[-1][1])
                 self._gs_error('3', err_str)
                 del self.loops[-1]
+            if not self.loops:
+                return
             if self.loops[-1][1] != seg_data.get_value('GE02'):
                 err_str = 'GE id={} does not match GS id={}'.format(\
                     seg_data.get_value('GE02'), self.loops[-1][1])
